@@ -16,6 +16,7 @@ import collections
 import random
 import re
 
+from xdsl.builder import ImplicitBuilder
 from xdsl.context import Context
 from xdsl.dialects import arith
 from xdsl.dialects.builtin import Builtin, IntAttr, IntegerAttr, ModuleOp, StringAttr, i32, i64
@@ -312,6 +313,37 @@ class Act:
                 c.violate("create_block:created-block-not-notified", "block creation handler was not called")
         return blk
 
+    def implicit(self, rw, build):
+        """Ops constructed under `ImplicitBuilder(rewriter)`: each one is an insertion made through the rewriter (owes an
+        insertion notification and the action flag). `build` constructs the ops and returns them."""
+        c = self.c
+        api = "implicit_builder_insert"
+        c.stats["api:" + api] += 1
+        c.api_calls += 1
+        c.acted.add(api)
+        e0 = len(c.events)
+        with ImplicitBuilder(rw):
+            ops = build()
+        if not c.monitoring:
+            return ops
+        c.keep.extend(ops)
+        got = {(k, id(o)) for k, o, _x in c.events[e0:]}
+        c.calls.append({"api": api, "n_events": len(c.events) - e0})
+        c.stats["api_events_expected"] += len(ops)
+        if not rw.has_done_action:
+            c.flag_explained = True
+            c.violate(f"{api}:flag-not-set", "ops constructed under ImplicitBuilder(rewriter) were inserted into the IR but "
+                      "rewriter.has_done_action is False afterwards", {"api": api})
+        c.inv_mutated = True
+        for o in ops:
+            if ("ins", id(o)) in got:
+                c.stats["api_events_matched"] += 1
+            else:
+                c.explained.add(("ins", id(o)))
+                c.violate(f"{api}:inserted-op-not-notified", f"{describe(o)} constructed under ImplicitBuilder(rewriter) "
+                          "got no insertion notification on the registered listener", {"api": api})
+        return ops
+
     def noop_call(self, rw, api, call):
         """A rewriter call that changes nothing and owes no notification (must leave the action flag alone)."""
         return self._run(api, rw, [], call, mutating=False)
@@ -578,6 +610,55 @@ class TailNoop(P):
         self.c.stats["tail:" + tail] += self.c.monitoring
 
 
+def _ctor(k, operands=(), nres=1, lvl=0):
+    # the constructor (not .create): runs Operation.__post_init__, which is what the implicit builder hooks
+    return TestOp(operands=list(operands), result_types=[i32] * nres,
+                  attributes={"k": StringAttr(k), "lvl": IntAttr(lvl)})
+
+
+class ImplicitInsertOnly(P):
+    """Insert-only match: the single action is an op constructed under ImplicitBuilder(rewriter) (a marker placed right
+    before the matched op; matches only while the previous op is not such a marker)."""
+
+    def match_and_rewrite(self, op, rw):
+        if kind(op) == "ii" and (op.prev_op is None or kind(op.prev_op) != "iim"):
+            self.A.implicit(rw, lambda: [_ctor("iim", (), 0, 0)])
+
+
+class ImplicitLower(P):
+    """Level-bounded: two ops built under the implicit builder (one using the other), then in-place decrement."""
+
+    def match_and_rewrite(self, op, rw):
+        if kind(op) == "il" and level(op) > 0:
+            def build():
+                h = _ctor("dead", (), 1, 0)
+                return [h, _ctor("a", [h.results[0]], 1, 0)]
+            self.A.implicit(rw, build)
+            set_level(op, level(op) - 1)
+            self.A.notify(rw, op)
+
+
+class NameHintInsert(P):
+    """Inserts with rewriter.name_hint set: a zero-result op, an op whose result already carries a hint, and (odd levels)
+    an unnamed one; every one of them owes an insertion notification."""
+
+    def match_and_rewrite(self, op, rw):
+        if kind(op) == "nh" and level(op) > 0:
+            rw.name_hint = "hinted"
+            z = mk("dead", (), 0, 0)
+            named = mk("a", (), 1, 0)
+            named.results[0].name_hint = "already"
+            ops = [z, named] + ([mk("dead", (), 1, 0)] if level(op) % 2 else [])
+            if level(op) % 3 == 0:
+                for o in ops:
+                    self.A.insert(rw, o)
+            else:
+                self.A.insert(rw, ops, InsertPoint.before(op))
+            rw.name_hint = None
+            set_level(op, level(op) - 1)
+            self.A.notify(rw, op)
+
+
 class EraseNext(P):
     def match_and_rewrite(self, op, rw):
         if kind(op) == "eo" and (n := op.next_op) is not None and kind(n) in ("dead", "x") and unused(n):
@@ -600,14 +681,16 @@ class LowerDef(P):
 PATTERNS = [EraseDead, Lower, LowerTwo, Forward, FoldIfOperandLow, ModifyInPlace, InsertOnce, InlineRegion,
             DropBlockArg, DropBlockArgUnsafe, RauwOperand, ReplaceUsesIf, RetypeResult, RetypeBlockArg,
             InlineRegionBlocks, MoveRegion, MultiReplaceNone, InsertBlockArg, UnsafeEraseChain, CreateBlock,
-            InlineDetachedBlock, EraseNext, EraseParent, LowerDef, CreateBlockOnly, TailNoop]
+            InlineDetachedBlock, EraseNext, EraseParent, LowerDef, CreateBlockOnly, TailNoop,
+            ImplicitInsertOnly, ImplicitLower, NameHintInsert]
 PATTERN_BY_NAME = {p.__name__: p for p in PATTERNS}
 KIND_OF = {"EraseDead": "dead", "Lower": "a", "LowerTwo": "b", "Forward": "id", "FoldIfOperandLow": "c",
            "ModifyInPlace": "m", "InsertOnce": "i", "InlineRegion": "r", "DropBlockArg": "g", "DropBlockArgUnsafe": "gx",
            "RauwOperand": "u", "ReplaceUsesIf": "w", "RetypeResult": "t", "RetypeBlockArg": "tb",
            "InlineRegionBlocks": "ir", "MoveRegion": "mv", "MultiReplaceNone": "n", "InsertBlockArg": "ga",
            "UnsafeEraseChain": "ue", "CreateBlock": "cb", "InlineDetachedBlock": "ib", "EraseNext": "eo",
-           "EraseParent": "ep", "LowerDef": "ld", "CreateBlockOnly": "cbo", "TailNoop": "tn"}
+           "EraseParent": "ep", "LowerDef": "ld", "CreateBlockOnly": "cbo", "TailNoop": "tn",
+           "ImplicitInsertOnly": "ii", "ImplicitLower": "il", "NameHintInsert": "nh"}
 REGION_KINDS = ("r", "g", "gx", "tb", "ir", "mv", "ga", "cb", "cbo")
 INERT = ["x", "x", "p"]
 
